@@ -145,6 +145,11 @@ def run(prog, chk):
     chk.rule('R07.10', 'no mutable static or thread-local storage in the evaluator: evaluation depends on the program state only')
     chk.rule('R07.11', 'an int bound to a slot declared long is widened at every binding site (declarations, parameters, returns, field stores, assignments)')
     _declared_long_rule(prog, chk, R)
+    # the binding sites themselves — declarations with an initialiser, parameter binding, returned values, stores into typed slots — are the
+    # ones C08's R08.4 enumerates: each hands its value to a class-stamping (hence widening) function.  Run here too: a `-> long` function
+    # whose result is not stamped hands back an int, and `side(100000) * side(100000)` wraps at 32 bits
+    from .C08 import _static_stamps
+    _static_stamps(prog, chk, R, R.ev_method('exec'), R.ev_method('eval'), rule='R07.11')
     nst = 0
     for key, gl in prog.facts.globals.items():
         if not (gl['file'].endswith('runtime_evaluator.cpp') or gl['file'].endswith('runtime_evaluator.hpp')):
